@@ -379,7 +379,9 @@ class Loader:
                          obj.get('max_utilization'))
 
             trait_list = obj.get('traits', [])
-            traitz, _ = traits.encode(self.trait_codes, trait_list)
+            traitz, _ = traits.encode(
+                self.trait_codes, trait_list, use_invalid=True
+            )
             alloc.set_traits(traitz)
 
             for assignment in obj.get('assignments', []):
